@@ -41,6 +41,10 @@ type Layout struct {
 	// explicit persister / merge-planner options (flush.go); when set they replace what Opts says for that option group
 	PO *PersisterOpts `json:"po,omitempty"`
 	MP *MergePlanOpts `json:"mp,omitempty"`
+	// rollback retention beyond numSnapshotsToKeep: "rollbackSamplingInterval" (a duration string,
+	// "" = default 0) and "rollbackRetentionFactor" (0 = default)
+	Sampling  string  `json:"sampling,omitempty"`
+	RetFactor float64 `json:"ret_factor,omitempty"`
 }
 
 func DocName(i int) string { return fmt.Sprintf("d%d", i) }
@@ -177,6 +181,12 @@ func ScorchConfig(l Layout) map[string]interface{} {
 	}
 	if l.Keep > 0 {
 		kvc["numSnapshotsToKeep"] = l.Keep
+	}
+	if l.Sampling != "" {
+		kvc["rollbackSamplingInterval"] = l.Sampling
+	}
+	if l.RetFactor > 0 {
+		kvc["rollbackRetentionFactor"] = l.RetFactor
 	}
 	return kvc
 }
